@@ -3,6 +3,7 @@
 # Use of this source code is governed by a BSD-style license that can be found in the LICENSE file.
 
 import networkx as nx
+import numpy as np
 import pandas as pd
 from pandapipes.topology.create_graph import create_nxgraph
 from pandapipes.topology.topology_toolbox import get_all_branch_component_table_names
@@ -145,7 +146,13 @@ def unsupplied_junctions(net, mg=None, slacks=None, respect_valves=True):
 
     mg = mg or create_nxgraph(net, respect_status_valves=respect_valves)
     if slacks is None:
-        slacks = set(net.ext_grid[net.ext_grid.in_service].junction.values)
+        # junctions with a fixed pressure: in-service external grids and circulation pumps of type p / pt
+        eg = net.ext_grid
+        slacks = set(eg[eg.in_service.values & np.isin(eg.type.values, ["p", "pt"])].junction.values)
+        for cp in ("circ_pump_mass", "circ_pump_pressure"):
+            if cp in net and len(net[cp]):
+                tab = net[cp]
+                slacks |= set(tab[tab.in_service.values & np.isin(tab.type.values, ["p", "pt"])].flow_junction.values)
     not_supplied = set()
     for cc in nx.connected_components(mg):
         if not set(cc) & slacks:
